@@ -98,7 +98,14 @@ class Run(object):
                 if e["marker"]:
                     self.pp.outReceived(b"Oct 03 12:00:00.000 [notice] Opening Control listener on /tmp/x/control.socket\n")
                 else:
-                    self.pp.outReceived(b"Oct 03 12:00:00.000 [notice] Tor 0.4.8.0 running on Linux.\n")
+                    # anything else Tor prints, progress lines included: stdout is not the control connection
+                    lines = [b"Oct 03 12:00:00.000 [notice] Tor 0.4.8.0 running on Linux.\n",
+                             b"Oct 03 12:00:01.000 [notice] Bootstrapped 100% (done): Done\n",
+                             b"Oct 03 12:00:01.000 [notice] Bootstrapped 45% (requesting_descriptors): Asking for relay descriptors\n",
+                             b"Oct 03 12:00:01.000 [notice] Bootstrapped 100% (done): Done\nOct 03 12:00:02.000 [notice] New control connection opened.\n",
+                             b"Oct 03 12:00:01.000 [warn] Opening Control liste"]
+                    self.nstd = getattr(self, "nstd", 0) + 1
+                    self.pp.outReceived(lines[self.nstd % len(lines)])
             elif a == "Connect":
                 d = self.conn_d.pop(0)
                 if e["how"] == "refused":
